@@ -5,6 +5,7 @@ Tie: correspondence.  A rule program is built with the real `with`-blocks throug
 the same program is run through the Coq model (Eql/RuleBuild.v heap surgery + Eql/RuleEval.v selector evaluation, `model_sx`)
 and the Spec (Eql/RuleSpec.v `rdr`, `spec_sx`) by vm_compute; `fragW_sx` says whether it lies in the proved fragment Fb.
 Decision: impl != spec inside Fb -> VIOLATION; outside Fb it is an instance of a listed finding only if impl = model.
+A second stream of TWO-variable programs (see "two-variable rule programs" below) is compared implementation vs Spec only.
 
 Case (JSON):  {"world": [[a, b], ...], "prog": RULE}
 RULE        :  {"conds": [ATOM, ...] (>= 1), "tag": int | None, "body": [[KIND, RULE], ...]}   KIND in "R" "A" "N"
